@@ -121,7 +121,8 @@ def match_known(prop, part, scn, v):
     for f in load_known_cached():
         if f.get("status") != "known" or f["property"] != prop:
             continue
-        if f.get("part") and f["part"] != part:
+        parts = f.get("part")
+        if parts and part not in (parts if isinstance(parts, list) else [parts]):
             continue
         m = getattr(known, f["matcher"])
         try:
@@ -349,14 +350,15 @@ def main(prop, tier):
     for f in load_known_cached():
         if f["property"] != prop or f.get("status") != "known":
             continue
+        fpart = f["part"][0] if isinstance(f["part"], list) else f["part"]
         try:
-            run_single(prop, f["part"], f["scenario"])
+            run_single(prop, fpart, f["scenario"])
         except Violation as v:
-            if match_known(prop, f["part"], f["scenario"], v) == f["id"]:
+            if match_known(prop, fpart, f["scenario"], v) == f["id"]:
                 known_lines.append("KNOWN-FINDING: property=%s %s: %s" % (prop, f["id"], f["what"]))
                 reproduced.append(f["id"])
             else:
-                violations.append((f["part"], f["scenario"], v.kind, v.detail, "known:" + f["id"]))
+                violations.append((fpart, f["scenario"], v.kind, v.detail, "known:" + f["id"]))
 
     # 3. generated search
     nworkers = NPROC
